@@ -177,8 +177,8 @@ impl<'a, 'ast> Visit<'ast> for BodyVisitor<'a> {
     fn visit_expr_for_loop(&mut self, l: &'ast syn::ExprForLoop) {
         let (a, b) = br(l.body.span());
         self.info.loops.push(format!(
-            "{{\"kind\":\"for\",\"start\":{},\"body_open\":{},\"body_close\":{}}}",
-            br(l.span()).0, a, b - 1
+            "{{\"kind\":\"for\",\"start\":{},\"body_open\":{},\"body_close\":{},\"pat\":{},\"expr\":{},\"label\":{}}}",
+            br(l.span()).0, a, b - 1, span_json(l.pat.span()), span_json(l.expr.span()), l.label.is_some()
         ));
         self.ref_pats(&l.pat, block_scope(&l.body));
         syn::visit::visit_expr_for_loop(self, l);
